@@ -96,7 +96,7 @@ func cmdCheck(args []string) int {
 		fmt.Fprintf(os.Stderr, "gowp: cannot load: %v\n", err)
 		return 2
 	}
-	timeout := 20000
+	timeout := 30000
 	all := false
 	if *tier == "thorough" {
 		timeout = 60000
